@@ -12,7 +12,10 @@ package main
 //       (canonFields), and the closure proxy's argument list BY ROLE (canonProxyArgs);
 //   (e) shapes: local guard closures `failed(err)` (inlineGuards), immediately-invoked literals used as a
 //       critical section (flattenIIFE), `for { if C { break }; … }` (loopConds) and
-//       `len(strings.TrimSpace(E)) > 0` (trimLen) are rewritten to the plain form.
+//       `len(strings.TrimSpace(E)) > 0` (trimLen) are rewritten to the plain form; a map walked through a
+//       snapshot of its keys (`ks := …; for k := range M { ks = append(ks, k) }; for _, k := range ks { v := M[k]; … }`)
+//       becomes the plain `for k, v := range M { … }` (fuseKeyLoops); a local closure without results that is
+//       called as a plain statement `f(x)` is replaced by its body, parameters substituted (inlineLocalCalls).
 // Every rewrite is behaviour-preserving on the analysed program, so a query that sees the rewritten tree
 // sees the same behaviour. The pass only adds or substitutes syntax for the extractor's eyes; it never
 // touches the repository.
@@ -85,6 +88,8 @@ func (s *src) normalize() {
 				safely(func() { s.loopConds(fd.Body) })
 				safely(func() { s.trimLen(fd.Body) })
 				safely(func() { s.inlineGuards(fd.Body) })
+				safely(func() { s.fuseKeyLoops(fd.Body) })
+				safely(func() { s.inlineLocalCalls(fd) })
 				s.inlineClosures(fd.Body)
 				s.inlineHelpers(fd.Body, helpers)
 				s.copyPropagate(fd.Body)
@@ -1110,6 +1115,463 @@ func (s *src) inlineGuards(body *ast.BlockStmt) {
 			continue
 		}
 		def := g.def
+		rewriteStmtLists(body, func(list []ast.Stmt) []ast.Stmt {
+			out := list[:0:0]
+			for _, st := range list {
+				if st != ast.Stmt(def) {
+					out = append(out, st)
+				}
+			}
+			return out
+		})
+	}
+}
+
+// fuseKeyLoops rewrites a walk over a snapshot of a map's keys,
+//
+//	ks := make([]K, 0, len(M))            (or `make([]K, 0)`, `[]K{}`, `var ks []K`)
+//	for k := range M { ks = append(ks, k) }
+//	for _, k2 := range ks { v := M[k2]; REST }
+//
+// to the walk over the map itself, `for k2, v := range M { REST }`. The three statements must follow each
+// other directly in one statement list (so they run under the same locks, and nothing can change M in between),
+// `ks` must not be mentioned anywhere else in the function, M is a plain name / field path, and REST mentions
+// neither M nor ks (it cannot add or delete entries) — then both forms visit every entry of M exactly once, in an
+// unspecified order, with the same `v`. Anything else (a sliced or filtered key list, a look-up that is not the
+// loop's first statement, statements in between) is left as written.
+func (s *src) fuseKeyLoops(body *ast.BlockStmt) {
+	if body == nil {
+		return
+	}
+	mentions := func(root ast.Node, name string) int {
+		n := 0
+		walkVarIdents(root, func(id *ast.Ident) {
+			if id.Name == name {
+				n++
+			}
+		})
+		return n
+	}
+	// the declaration of an empty key slice -> its name
+	emptySlice := func(st ast.Stmt) string {
+		switch v := st.(type) {
+		case *ast.AssignStmt:
+			if v.Tok != token.DEFINE || len(v.Lhs) != 1 || len(v.Rhs) != 1 {
+				return ""
+			}
+			id, ok := v.Lhs[0].(*ast.Ident)
+			if !ok {
+				return ""
+			}
+			switch r := v.Rhs[0].(type) {
+			case *ast.CompositeLit:
+				if at, ok := r.Type.(*ast.ArrayType); ok && at.Len == nil && len(r.Elts) == 0 {
+					return id.Name
+				}
+			case *ast.CallExpr:
+				if fn, ok := r.Fun.(*ast.Ident); !ok || fn.Name != "make" || len(r.Args) < 2 || len(r.Args) > 3 || s.str(r.Args[1]) != "0" {
+					return ""
+				}
+				if at, ok := r.Args[0].(*ast.ArrayType); !ok || at.Len != nil {
+					return ""
+				}
+				if len(r.Args) == 3 && !pureOperand(r.Args[2]) { // the capacity: `len(M)` or a constant
+					return ""
+				}
+				return id.Name
+			}
+		case *ast.DeclStmt:
+			gd, ok := v.Decl.(*ast.GenDecl)
+			if !ok || gd.Tok != token.VAR || len(gd.Specs) != 1 {
+				return ""
+			}
+			vs, ok := gd.Specs[0].(*ast.ValueSpec)
+			if !ok || len(vs.Names) != 1 || len(vs.Values) != 0 {
+				return ""
+			}
+			if at, ok := vs.Type.(*ast.ArrayType); ok && at.Len == nil {
+				return vs.Names[0].Name
+			}
+		}
+		return ""
+	}
+	fuse := func(s1, s2, s3 ast.Stmt) bool {
+		ks := emptySlice(s1)
+		collect, ok2 := s2.(*ast.RangeStmt)
+		walk, ok3 := s3.(*ast.RangeStmt)
+		if ks == "" || ks == "_" || !ok2 || !ok3 || collect.Body == nil || walk.Body == nil {
+			return false
+		}
+		// for k := range M { ks = append(ks, k) }
+		k, ok := collect.Key.(*ast.Ident)
+		if !ok || k.Name == "_" || collect.Value != nil || collect.Tok != token.DEFINE || !pureOperand(collect.X) || len(collect.Body.List) != 1 {
+			return false
+		}
+		if _, isCall := unparen(collect.X).(*ast.CallExpr); isCall {
+			return false
+		}
+		m := s.str(collect.X)
+		if ap, ok := collect.Body.List[0].(*ast.AssignStmt); !ok || ap.Tok != token.ASSIGN || s.str(ap) != ks+" = append("+ks+", "+k.Name+")" {
+			return false
+		}
+		// for _, k2 := range ks { v := M[k2]; REST }
+		if walk.Tok != token.DEFINE || s.str(walk.X) != ks || len(walk.Body.List) == 0 {
+			return false
+		}
+		if key, ok := walk.Key.(*ast.Ident); walk.Key != nil && (!ok || key.Name != "_") {
+			return false
+		}
+		k2, ok := walk.Value.(*ast.Ident)
+		if !ok || k2.Name == "_" {
+			return false
+		}
+		look, ok := walk.Body.List[0].(*ast.AssignStmt)
+		if !ok || look.Tok != token.DEFINE || len(look.Lhs) != 1 || len(look.Rhs) != 1 {
+			return false
+		}
+		v, ok := look.Lhs[0].(*ast.Ident)
+		ix, ok2 := look.Rhs[0].(*ast.IndexExpr)
+		if !ok || !ok2 || v.Name == "_" || v.Name == k2.Name || s.str(ix.X) != m || s.str(ix.Index) != k2.Name {
+			return false
+		}
+		rest := &ast.BlockStmt{Lbrace: walk.Body.Lbrace, List: walk.Body.List[1:], Rbrace: walk.Body.Rbrace}
+		if mentions(body, ks) != 4 || mentions(rest, ks) != 0 {
+			return false
+		}
+		touchesMap := false
+		ast.Inspect(rest, func(n ast.Node) bool {
+			if e, ok := n.(ast.Expr); ok && s.str(e) == m {
+				touchesMap = true
+			}
+			return !touchesMap
+		})
+		if touchesMap {
+			return false
+		}
+		// the map expression of the look-up lies inside the second loop: positions (and with them the locks held
+		// there) are those of the loop that does the work
+		key := &ast.Ident{NamePos: k2.NamePos, Name: "_"}
+		if mentions(rest, k2.Name) > 0 {
+			key = k2
+		}
+		walk.Key, walk.Value, walk.X = key, v, ix.X
+		walk.Body.List = rest.List
+		return true
+	}
+	rewriteStmtLists(body, func(list []ast.Stmt) []ast.Stmt {
+		for i := 0; i+2 < len(list); i++ {
+			if fuse(list[i], list[i+1], list[i+2]) {
+				list = append(list[:i:i], list[i+2:]...)
+			}
+		}
+		return list
+	})
+}
+
+// inlineLocalCalls replaces plain call statements `f(ARGS)` of a local closure
+//
+//	f := func(p1 T1, …) { BODY }      (no results; assigned once; BODY has no return / defer / recover and does
+//	                                   not mention f; parameters named, not variadic, never assigned in BODY)
+//
+// by BODY with the parameters replaced by the arguments, so that the queries see the statements where they
+// run. An argument that is not a plain name or literal is only substituted when the parameter is used exactly
+// once, as the whole right-hand side (or first call argument) of BODY's FIRST statement — it is then still
+// evaluated first and once. Names cannot be captured: the call is left alone when a free name of BODY, or f
+// itself, is declared more than once in the function (it could be shadowed at the call), or when BODY declares
+// a name an argument mentions. BODY's statements are spliced in place (inside a block of their own when BODY
+// declares names), statement k at position call+k, so order relations with and among them hold; statements
+// nested inside one of them share its position, like the helper copies. `setErr` is never inlined (the
+// queries follow its calls by name). The definition is dropped once nothing refers to it.
+func (s *src) inlineLocalCalls(fd *ast.FuncDecl) {
+	if fd == nil || fd.Body == nil {
+		return
+	}
+	body := fd.Body
+	// how often each name is declared anywhere in the function (parameters, results, :=, var, range, literals' parameters)
+	declared := map[string]int{}
+	declFields := func(fl *ast.FieldList) {
+		for _, id := range fieldIdents(fl) {
+			if id != nil {
+				declared[id.Name]++
+			}
+		}
+	}
+	if fd.Type != nil {
+		declFields(fd.Type.Params)
+		declFields(fd.Type.Results)
+	}
+	declFields(fd.Recv)
+	assigned := map[string]int{}
+	ast.Inspect(body, func(n ast.Node) bool {
+		switch v := n.(type) {
+		case *ast.AssignStmt:
+			for _, l := range v.Lhs {
+				if id, ok := l.(*ast.Ident); ok {
+					assigned[id.Name]++
+					if v.Tok == token.DEFINE {
+						declared[id.Name]++
+					}
+				}
+			}
+		case *ast.ValueSpec:
+			for _, id := range v.Names {
+				declared[id.Name]++
+			}
+		case *ast.RangeStmt:
+			if v.Tok == token.DEFINE {
+				for _, e := range []ast.Expr{v.Key, v.Value} {
+					if id, ok := e.(*ast.Ident); ok {
+						declared[id.Name]++
+					}
+				}
+			}
+		case *ast.FuncLit:
+			if v.Type != nil {
+				declFields(v.Type.Params)
+				declFields(v.Type.Results)
+			}
+		case *ast.LabeledStmt:
+			if v.Label != nil {
+				declared[v.Label.Name]++
+			}
+		}
+		return true
+	})
+	type closure struct {
+		def    *ast.AssignStmt
+		lit    *ast.FuncLit
+		params []string
+		uses   map[string]int // parameter -> number of uses in the body
+		locals map[string]bool
+	}
+	closures := map[string]*closure{}
+	for _, a := range all[*ast.AssignStmt](body, nil) {
+		if a.Tok != token.DEFINE || len(a.Lhs) != 1 || len(a.Rhs) != 1 {
+			continue
+		}
+		id, ok := a.Lhs[0].(*ast.Ident)
+		fl, ok2 := a.Rhs[0].(*ast.FuncLit)
+		if !ok || !ok2 || id.Name == "setErr" || id.Name == "_" || assigned[id.Name] != 1 || declared[id.Name] != 1 {
+			continue
+		}
+		if fl.Type == nil || fl.Body == nil || len(fl.Body.List) == 0 || (fl.Type.Results != nil && len(fl.Type.Results.List) > 0) {
+			continue
+		}
+		c := &closure{def: a, lit: fl, uses: map[string]int{}, locals: map[string]bool{}}
+		okParams := true
+		if fl.Type.Params != nil {
+			for _, f := range fl.Type.Params.List {
+				if _, variadic := f.Type.(*ast.Ellipsis); variadic || len(f.Names) == 0 {
+					okParams = false
+					break
+				}
+				for _, n := range f.Names {
+					okParams = okParams && n.Name != "_"
+					c.params = append(c.params, n.Name)
+				}
+			}
+		}
+		if !okParams {
+			continue
+		}
+		if len(allShallow[*ast.ReturnStmt](fl, nil))+len(all[*ast.DeferStmt](fl.Body, nil)) > 0 || len(s.callsTo(fl.Body, "recover")) > 0 {
+			continue
+		}
+		isParam := map[string]bool{}
+		for _, p := range c.params {
+			isParam[p] = true
+		}
+		// names the body declares itself; parameters must not be assigned (that would write the caller's variable)
+		bad := false
+		ast.Inspect(fl.Body, func(n ast.Node) bool {
+			switch v := n.(type) {
+			case *ast.AssignStmt:
+				for _, l := range v.Lhs {
+					if id, ok := l.(*ast.Ident); ok {
+						if v.Tok == token.DEFINE {
+							c.locals[id.Name] = true
+						}
+						bad = bad || isParam[id.Name]
+					}
+				}
+			case *ast.ValueSpec:
+				for _, id := range v.Names {
+					c.locals[id.Name] = true
+					bad = bad || isParam[id.Name]
+				}
+			case *ast.RangeStmt:
+				for _, e := range []ast.Expr{v.Key, v.Value} {
+					if id, ok := e.(*ast.Ident); ok {
+						c.locals[id.Name] = true
+						bad = bad || isParam[id.Name]
+					}
+				}
+			case *ast.IncDecStmt:
+				if id, ok := v.X.(*ast.Ident); ok {
+					bad = bad || isParam[id.Name]
+				}
+			case *ast.UnaryExpr:
+				if id, ok := v.X.(*ast.Ident); ok && v.Op == token.AND {
+					bad = bad || isParam[id.Name]
+				}
+			case *ast.FuncLit:
+				if v.Type != nil {
+					for _, id := range append(fieldIdents(v.Type.Params), fieldIdents(v.Type.Results)...) {
+						if id != nil {
+							c.locals[id.Name] = true
+							bad = bad || isParam[id.Name]
+						}
+					}
+				}
+			}
+			return true
+		})
+		// free names: declared at most once in the whole function, so they mean the same thing at every call
+		walkVarIdents(fl.Body, func(x *ast.Ident) {
+			switch {
+			case x.Name == id.Name:
+				bad = true // recursive
+			case isParam[x.Name]:
+				c.uses[x.Name]++
+			case c.locals[x.Name]:
+				if declared[x.Name] > 1 { // also declared outside: which one a use means depends on where it stands
+					bad = true
+				}
+			case declared[x.Name] > 1:
+				bad = true
+			}
+		})
+		if !bad {
+			closures[id.Name] = c
+		}
+	}
+	if len(closures) == 0 {
+		return
+	}
+	trivial := func(e ast.Expr) bool {
+		switch e.(type) {
+		case *ast.Ident, *ast.BasicLit:
+			return true
+		}
+		return false
+	}
+	// the parameter is the whole right-hand side / first call argument of the body's first statement
+	usedFirst := func(c *closure, p string) bool {
+		switch v := c.lit.Body.List[0].(type) {
+		case *ast.AssignStmt:
+			if len(v.Rhs) == 1 && len(v.Lhs) == 1 {
+				if _, plain := v.Lhs[0].(*ast.Ident); plain {
+					id, ok := v.Rhs[0].(*ast.Ident)
+					return ok && id.Name == p
+				}
+			}
+		case *ast.ExprStmt:
+			if call, ok := v.X.(*ast.CallExpr); ok && len(call.Args) > 0 && pureOperand(call.Fun) {
+				id, ok := call.Args[0].(*ast.Ident)
+				return ok && id.Name == p
+			}
+		}
+		return false
+	}
+	inlined := map[string]int{} // closure -> calls replaced by this run
+	expand := func(st ast.Stmt) ([]ast.Stmt, bool) {
+		es, ok := st.(*ast.ExprStmt)
+		if !ok {
+			return nil, false
+		}
+		call, ok := es.X.(*ast.CallExpr)
+		if !ok || call.Ellipsis.IsValid() {
+			return nil, false
+		}
+		fn, ok := call.Fun.(*ast.Ident)
+		if !ok {
+			return nil, false
+		}
+		c := closures[fn.Name]
+		if c == nil || len(call.Args) != len(c.params) || contains(c.def, st) || !before(c.def, st) {
+			return nil, false
+		}
+		if int(st.End()-st.Pos()) < len(c.lit.Body.List) { // no room for one position per statement
+			return nil, false
+		}
+		ren := map[string]string{}
+		for i, p := range c.params {
+			arg := unparen(call.Args[i])
+			capture := false
+			walkVarIdents(arg, func(id *ast.Ident) { capture = capture || c.locals[id.Name] })
+			if capture {
+				return nil, false
+			}
+			switch {
+			case trivial(arg):
+			case c.uses[p] == 1 && usedFirst(c, p):
+			case c.uses[p] == 0 && pureOperand(arg):
+				if _, isCall := arg.(*ast.CallExpr); isCall {
+					return nil, false
+				}
+			default:
+				return nil, false
+			}
+			text := s.str(arg)
+			switch arg.(type) {
+			case *ast.Ident, *ast.BasicLit, *ast.CallExpr, *ast.SelectorExpr, *ast.IndexExpr, *ast.CompositeLit, *ast.TypeAssertExpr:
+			default:
+				text = "(" + text + ")"
+			}
+			if text != p {
+				ren[p] = text
+			}
+		}
+		blk := s.cloneBlock(c.lit.Body, st.Pos())
+		if blk == nil {
+			return nil, false
+		}
+		if len(ren) > 0 {
+			renameIdents(blk, ren)
+			if blk = s.cloneBlock(blk, st.Pos()); blk == nil { // print + parse: the substituted texts become expressions
+				return nil, false
+			}
+		}
+		declares := false
+		for k, b := range blk.List {
+			shift(b, st.Pos()+token.Pos(k))
+			switch v := b.(type) {
+			case *ast.DeclStmt, *ast.LabeledStmt:
+				declares = true
+			case *ast.AssignStmt:
+				declares = declares || v.Tok == token.DEFINE
+			}
+		}
+		inlined[fn.Name]++
+		if declares {
+			return []ast.Stmt{&ast.BlockStmt{Lbrace: st.Pos(), List: blk.List, Rbrace: st.End() - 1}}, true
+		}
+		return blk.List, true
+	}
+	rewriteStmtLists(body, func(list []ast.Stmt) []ast.Stmt {
+		var out []ast.Stmt
+		for _, st := range list {
+			if repl, ok := expand(st); ok {
+				out = append(out, repl...)
+			} else {
+				out = append(out, st)
+			}
+		}
+		return out
+	})
+	for name, c := range closures {
+		uses := 0
+		walkVarIdents(body, func(id *ast.Ident) {
+			if id.Name == name {
+				uses++
+			}
+		})
+		// 1 = the definition's own left-hand side. (A closure none of whose calls was replaced here is not this
+		// step's to drop: inlineClosures may have put its literal behind a `go` / `defer` and counts on the definition.)
+		if uses != 1 || inlined[name] == 0 {
+			continue
+		}
+		def := c.def
 		rewriteStmtLists(body, func(list []ast.Stmt) []ast.Stmt {
 			out := list[:0:0]
 			for _, st := range list {
